@@ -72,6 +72,10 @@ type propCfg struct {
 	Quick    int      // seconds
 	Thorough int
 	Race     bool
+	// Rare arms are expensive: they run once at the start and then every
+	// RareEvery-th run.
+	Rare      []string
+	RareEvery int
 }
 
 var props = map[string]propCfg{
@@ -79,6 +83,10 @@ var props = map[string]propCfg{
 	"C02": {Focus: "C02", Arms: []string{"clean"}, Probes: []string{"c02_fresh_compared", "content_checked"}},
 	"C03": {Focus: "C03", Arms: []string{"clean", "faults"}, Probes: []string{"c03_checked", "c03_notimp", "c03_refused", "c03_servfail"}},
 	"C04": {Focus: "C04", Arms: []string{"clean"}, Probes: []string{"content_checked"}},
+	"C05": {Focus: "C05", Arms: []string{"clean"}, Rare: []string{"exhaust"}, RareEvery: 2500, Probes: []string{"c05_reply_checked", "c05_wireid_checked", "c05_exhaust_completed", "c05_exhaust_rollover_seen"}},
+	"C06": {Focus: "C06", Arms: []string{"clean"}, Probes: []string{"c06_query_checked", "c06_reply_checked"}},
+	"C14": {Focus: "C14", Arms: []string{"stale", "faults"}, Probes: []string{"c14_deadline_checked", "c14_liveness_checked", "c14_waiter_on_dead_conn"}},
+	"C16": {Focus: "C16", Arms: []string{"clean"}, Probes: []string{"c16_tc_seen", "c16_tcp_outcome_returned", "c16_no_tc"}},
 	"C07": {Focus: "C07", Arms: []string{"ample", "ample", "tiny"}, Probes: []string{"cache_hit", "c07_group_checked", "c07_compared_with_first_relay", "c07_hit_expected"}},
 	"C08": {Focus: "C08", Arms: []string{"clean"}, Probes: []string{"cache_hit", "c08_ttl_checked", "cache_hit_last_quarter"}},
 	"C19": {Focus: "C19", Arms: []string{"clean"}, Probes: []string{"cache_hit", "cache_hit_last_quarter", "c07_hit_expected"}},
@@ -103,7 +111,7 @@ var (
 )
 
 func childEnv(extra ...string) []string {
-	env := []string{"GOMAXPROCS=1", "GODEBUG=asyncpreemptoff=1", "GOGC=off", "QUIC_GO_DISABLE_RECEIVE_BUFFER_WARNING=1", "HOME=" + os.Getenv("HOME"), "TMPDIR=" + scratch, "PATH=" + os.Getenv("PATH")}
+	env := []string{"GOMAXPROCS=1", "GODEBUG=asyncpreemptoff=1", "GOGC=off", "GOMEMLIMIT=1500MiB", "QUIC_GO_DISABLE_RECEIVE_BUFFER_WARNING=1", "HOME=" + os.Getenv("HOME"), "TMPDIR=" + scratch, "PATH=" + os.Getenv("PATH")}
 	return append(env, extra...)
 }
 
@@ -322,6 +330,12 @@ func main() {
 				}
 				rs := mix(seed*1000003 + uint64(i))
 				arm := cfg.Arms[i%len(cfg.Arms)]
+				if len(cfg.Rare) > 0 {
+					every := max(cfg.RareEvery, len(cfg.Rare)+1)
+					if k := i % every; k < len(cfg.Rare) {
+						arm = cfg.Rare[k]
+					}
+				}
 				r := runSeed(rs, cfg.Focus, arm, 0, fmt.Sprintf("w%d", w))
 				mu.Lock()
 				results = append(results, r)
